@@ -11,7 +11,7 @@ ID = "C07"
 THM_MODULES = ["Minicbor.Thm.C07"]
 P = "Minicbor.C07."
 REQUIRED = [P + n for n in "len_exact_builtin len_exact_list len_exact_token len_exact_tokens exact_buffer arity_needed".split()]
-PACKAGES = ["hcore"]
+PACKAGES = ["hcore", "dgen"]
 RULE = ("`tenc <type> <value>` over the C01 corpus (every registered built-in instantiation, boundary + seeded random values) and "
         "`tokenc <token list>`: every Token variant alone at every boundary payload (all 2^k±3 integers per width, all 256 simple "
         "values, byte strings of every length 0..300 and 65535/65536, strings at the length-width edges, half-representable and "
@@ -44,7 +44,14 @@ def token_ops(rng, tier):
     return ops
 
 
+def prepare(seed, tier):
+    from verifkit.props import C08
+    C08.prepare(seed, tier)          # regenerates the crate of derived types (harness/dgen) from the seed
+
+
 def streams(rng, tier):
+    from verifkit.props import C08
+    derived = C08.derived_len_streams(rng, tier)
     cps = C01.corpus(rng, tier)
     ops, mops = C01.enc_ops(cps)
     nt = lambda op, impl: C01.split_enc(impl) is not None
@@ -52,7 +59,7 @@ def streams(rng, tier):
     s2 = Stream("len-token", "hcore", token_ops(rng, tier), judge=judge_len, nontrivial=nt,
                 rule="tokenc <tokens>: bytes of Encoder::tokens and the sum of minicbor::len over the tokens")
     s1.shrinkable = s2.shrinkable = False
-    return [s1, s2]
+    return [s1, s2] + derived
 
 
 def replay_streams(rp):
